@@ -242,7 +242,7 @@ impl VHDLServer {
     pub fn document_symbol(&self, params: &DocumentSymbolParams) -> Option<DocumentSymbolResponse> {
         let source = self
             .project
-            .get_source(&uri_to_file_name(&params.text_document.uri))?;
+            .get_source(&uri_to_file_name(&params.text_document.uri)?)?;
 
         // Some files are mapped to multiple libraries, only use the first library for document symbols
         let library_name = self
@@ -417,9 +417,9 @@ fn file_name_to_uri(file_name: &Path) -> Url {
     Url::from_file_path(file_name).unwrap()
 }
 
-fn uri_to_file_name(uri: &Url) -> PathBuf {
-    // @TODO return error to client
-    uri.to_file_path().unwrap()
+/// The file name of a document, `None` when the URI does not denote a file (e.g. `untitled:`)
+fn uri_to_file_name(uri: &Url) -> Option<PathBuf> {
+    uri.to_file_path().ok()
 }
 
 fn overloaded_kind(overloaded: &Overloaded) -> SymbolKind {
